@@ -116,7 +116,7 @@ func (m *Mast) diff(
 func (m *Mast) diffOne(
 	ctx context.Context,
 	dc *diffState,
-) error {
+) (err error) {
 	if m.debug {
 		fmt.Printf("diff() iteration:\n")
 		fmt.Printf("  oldStack: %v\n", dc.oldStack)
@@ -124,6 +124,15 @@ func (m *Mast) diffOne(
 	}
 	o := dc.oldStack.pop()
 	n := dc.newStack.pop()
+	oldDepth, newDepth := len(dc.oldStack.things), len(dc.newStack.things)
+	defer func() {
+		if err != nil && err != ErrNoMoreDiffs {
+			// a load or a key comparison failed: put the two items back (and drop what this
+			// step pushed), so that the step can be retried on the same cursor
+			dc.oldStack.restore(oldDepth, o)
+			dc.newStack.restore(newDepth, n)
+		}
+	}()
 	if o == nil && n == nil {
 		if m.debug {
 			fmt.Printf("  done\n")
@@ -303,6 +312,15 @@ func (m *Mast) alreadyNotified(ctx context.Context, name string, linkByHeight ma
 
 type iterItemStack struct {
 	things []iterItem
+}
+
+// restore undoes one step: everything pushed since the pop (which left the stack at the
+// given depth) is dropped and the popped item, if there was one, is put back.
+func (stack *iterItemStack) restore(depth int, popped *iterItem) {
+	stack.things = stack.things[:depth]
+	if popped != nil {
+		stack.things = append(stack.things, *popped)
+	}
 }
 
 func newIterItemStack(item iterItem) iterItemStack {
